@@ -325,6 +325,52 @@ fn alignment_diffs(w: &World, responses: &[Value]) -> Vec<(String, String)> {
     d
 }
 
+/// the graph as the language-binding interface shows it (`CompassAppBindings::graph_*`: plain indices in, plain
+/// indices out) against the generator's own lists
+fn graph_api_diffs(w: &World, bind: &crate::scenario::Bind) -> Vec<String> {
+    use routee_compass::app::bindings::CompassAppBindings;
+    let mut d = vec![];
+    for (i, (a, b, dist)) in w.edges.iter().enumerate() {
+        match (bind.graph_edge_origin(i), bind.graph_edge_destination(i)) {
+            (Ok(o), Ok(t)) if o == *a && t == *b => {}
+            (o, t) => d.push(format!("edge {}: origin {:?} destination {:?} but the file says {} -> {}", i, o.ok(), t.ok(), a, b)),
+        }
+        match bind.graph_edge_distance(i, None) {
+            Ok(x) if x == *dist => {}
+            x => d.push(format!("edge {}: distance {:?} but the file says {} (metres)", i, x.ok(), dist)),
+        }
+        for (unit, factor, tol) in [("meters", 1.0, 0.0), ("kilometers", 1e-3, 1e-12), ("miles", 1.0 / 1609.344, 1e-3)] {
+            match bind.graph_edge_distance(i, Some(unit.to_string())) {
+                Ok(x) if (x - dist * factor).abs() <= tol * (dist * factor).abs() => {}
+                x => d.push(format!("edge {}: distance in {} is {:?} but the file says {} metres", i, unit, x.ok(), dist)),
+            }
+        }
+    }
+    for v in 0..w.nv() {
+        let mut out: Vec<usize> = bind.graph_get_out_edge_ids(v);
+        let mut inc: Vec<usize> = bind.graph_get_in_edge_ids(v);
+        out.sort();
+        inc.sort();
+        let want_out: Vec<usize> = w.edges.iter().enumerate().filter(|(_, e)| e.0 == v).map(|(i, _)| i).collect();
+        let want_in: Vec<usize> = w.edges.iter().enumerate().filter(|(_, e)| e.1 == v).map(|(i, _)| i).collect();
+        if out != want_out {
+            d.push(format!("vertex {}: outgoing edges {:?} but the file lists {:?}", v, out, want_out));
+        }
+        if inc != want_in {
+            d.push(format!("vertex {}: incoming edges {:?} but the file lists {:?}", v, inc, want_in));
+        }
+    }
+    // an edge that is not listed is not there; a vertex that is not listed has no edges
+    if bind.graph_edge_origin(w.ne()).is_ok() || bind.graph_edge_destination(w.ne()).is_ok() || bind.graph_edge_distance(w.ne(), None).is_ok() {
+        d.push(format!("edge {} is not listed, but the binding interface returns one", w.ne()));
+    }
+    if !bind.graph_get_out_edge_ids(w.nv()).is_empty() || !bind.graph_get_in_edge_ids(w.nv()).is_empty() {
+        d.push(format!("vertex {} is not listed, but the binding interface returns edges for it", w.nv()));
+    }
+    d.truncate(6);
+    d
+}
+
 fn run_app(case: &Case, fatal_fd: i32) -> ChildResult {
     let out = execute_custom(case, fatal_fd, |case| {
         let w = &case.world;
@@ -349,12 +395,20 @@ fn run_app(case: &Case, fatal_fd: i32) -> ChildResult {
         sim::set_quiet(false);
         let built = std::panic::catch_unwind(std::panic::AssertUnwindSafe(|| build_app(&cfg)));
         sim::set_quiet(true);
+        let mut graph_api = Value::Null;
         let got = match built {
-            Ok(Ok(app)) => run(&app),
+            Ok(Ok(app)) => {
+                let bind = crate::scenario::Bind { app };
+                graph_api = match std::panic::catch_unwind(std::panic::AssertUnwindSafe(|| graph_api_diffs(w, &bind))) {
+                    Ok(d) => json!(d),
+                    Err(_) => json!(["the graph accessors of the binding interface panicked"]),
+                };
+                run(&bind.app)
+            }
             Ok(Err(e)) => json!({"build_error": e}),
             Err(_) => json!({"build_panic": true}),
         };
-        json!({"reference": reference, "got": got})
+        json!({"reference": reference, "got": got, "graph_api": graph_api})
     });
     let w = &case.world;
     let mut v = vec![];
@@ -368,6 +422,12 @@ fn run_app(case: &Case, fatal_fd: i32) -> ChildResult {
     if let Some(val) = &out.value {
         let reference = &val["reference"];
         let got = &val["got"];
+        if let Some(ds) = val["graph_api"].as_array() {
+            *reach.entry("app_graph_read_through_binding_accessors".into()).or_insert(0) += 1;
+            if !ds.is_empty() {
+                v.push(Violation { class: if hard_fired > 0 { "app-graph-silently-different-after-hard-fault".into() } else { "app-graph-accessors-differ".into() }, detail: ds.iter().filter_map(|x| x.as_str()).collect::<Vec<_>>().join("; ") });
+            }
+        }
         match reference.as_array() {
             None => v.push(Violation { class: "app-reference-failed".into(), detail: format!("the application could not be built / run from intact files: {}", reference.to_string().chars().take(400).collect::<String>()) }),
             Some(refs) => {
